@@ -1,16 +1,16 @@
 /-
   C07, record scanners: the ORIGIN reader (`originField`) never panics when the declared length
-  is non-negative and the input has fewer than 10^9 bytes left.
+  is non-negative (the range check of `GenBankParser`).
   * `validateOrigin` indexes its buffer unchecked; on a buffer of exactly `toOriginLength length`
-    bytes every index is in range as long as each line index `%9d` is nine columns wide
-    (`length < 10^9`): a line consumes `9 + groups + 1` bytes and the line sizes add up to
-    `toOriginLength` (`tl_step`).
+    bytes every index is in range as long as each line index `%9d` is nine columns wide: a line
+    consumes `9 + groups + 1` bytes and the line sizes add up to `toOriginLength` (`tl_step`).
+    The lines start at residue `i + 1` with `i` a multiple of 60 below `length`; for
+    `length ≤ 1000000020 = 60 · 16666667` (the guard `maxOriginResidues` of be672b0) that is at
+    most 999999961: nine digits.  For `length = 1000000021` the last line starts at 1000000021:
+    ten digits, and a WELL-FORMED block makes `validateOrigin` index one byte past its buffer
+    (`Gts.C07.validateOrigin_wide_index_panics`): the constant is exactly right.
   * the slow path writes into `make([]byte, toOriginLength length)`; the same count shows that the
-    store of the line feed is in range (`slowLines_ne_panic` of C16).
-  * `state.Request(n)` succeeded, so `length ≤ toOriginLength length ≤ bytes left < 10^9`.
-  For `length ≥ 10^9 + 21` the line index is ten columns wide and a WELL-FORMED block makes
-  `validateOrigin` index one byte past its buffer: that panic is real (it needs an input of more
-  than a gigabyte) and is why the bound is a hypothesis.
+    store of the line feed is in range (`slowLines_ne_panic_le` of C16).
   Core Lean only.
 -/
 import Gts.Lemmas.GbSafe
@@ -85,7 +85,8 @@ theorem walkLine_ne_panic (oob : Err) (L i : Nat) (rest : Bytes) (hi : i + 1 < 1
 
 /-- `validateOrigin`'s unchecked indexing stays inside a buffer that holds at least
 `toOriginLength` of the residues still to be read -/
-theorem validateLines_ne_panic (L f i : Nat) (rest : Bytes) (hL : L < 10 ^ 9)
+theorem validateLines_ne_panic_le (L f i : Nat) (rest : Bytes)
+    (hL : L < 10 ^ 9 ∨ (L ≤ 1000000020 ∧ i % 60 = 0))
     (hlen : tl (L - i) ≤ rest.length) : validateLines (L : Int) f i rest ≠ .error .panic := by
   induction f generalizing i rest with
   | zero => simp [validateLines]
@@ -114,13 +115,24 @@ theorem validateLines_ne_panic (L f i : Nat) (rest : Bytes) (hL : L < 10 ^ 9)
           simp only
           split
           · simp
-          · exact ih (i + 60) r' (by simp only [List.length_cons] at hr; omega)
+          · exact ih (i + 60) r' (by omega) (by simp only [List.length_cons] at hr; omega)
     · rw [if_neg hc]; simp
 
-theorem validateOrigin_ne_panic (p : Bytes) (L : Nat) (hL : L < 10 ^ 9) (hp : tl L ≤ p.length) :
+theorem validateLines_ne_panic (L f i : Nat) (rest : Bytes) (hL : L < 10 ^ 9)
+    (hlen : tl (L - i) ≤ rest.length) : validateLines (L : Int) f i rest ≠ .error .panic :=
+  validateLines_ne_panic_le L f i rest (Or.inl hL) hlen
+
+/-- for every declared length that passes the guard of `makeGenbankOriginParser`
+(`length ≤ maxOriginResidues = 1000000020 = 60 · 16666667`) the lines start at `i + 1` with
+`i ≤ 999999960` a multiple of 60: the index is nine columns wide and no index is out of range -/
+theorem validateOrigin_ne_panic_le (p : Bytes) (L : Nat) (hL : L ≤ 1000000020) (hp : tl L ≤ p.length) :
     validateOrigin p (L : Int) ≠ .error .panic := by
   unfold validateOrigin
-  exact validateLines_ne_panic L _ 0 p hL (by simpa using hp)
+  exact validateLines_ne_panic_le L _ 0 p (Or.inr ⟨hL, rfl⟩) (by simpa using hp)
+
+theorem validateOrigin_ne_panic (p : Bytes) (L : Nat) (hL : L < 10 ^ 9) (hp : tl L ≤ p.length) :
+    validateOrigin p (L : Int) ≠ .error .panic :=
+  validateOrigin_ne_panic_le p L (by omega) hp
 
 end Gts.Origin
 
@@ -173,10 +185,10 @@ theorem slowLines_rest_le (length : Int) (cap : Nat) : ∀ f i st acc out st',
           · cases h
     · cases h; exact Nat.le_refl _
 
-/-- `makeGenbankOriginParser(length)`: with a declared length in range and fewer than 10^9 bytes
-left, neither the negative `Request`, nor `validateOrigin`'s indexing, nor the slow path's store
-can panic -/
-theorem originField_safeS (length : Int) (d : Nat) (h0 : 0 ≤ length) (hL : L < 10 ^ 9) :
+/-- `makeGenbankOriginParser(length)`: with a declared length in range, neither the negative
+`Request`, nor `validateOrigin`'s indexing (a length above 1000000020 is refused first), nor the
+slow path's store can panic -/
+theorem originField_safeS (length : Int) (d : Nat) (h0 : 0 ≤ length) :
     SafeS L (originField length d) := by
   intro s h
   unfold originField
@@ -189,6 +201,10 @@ theorem originField_safeS (length : Int) (d : Nat) (h0 : 0 ≤ length) (hL : L <
       rw [wp_bind]; apply wps_clear h2; intro s3 h3
       dsimp only
       obtain ⟨n, rfl⟩ := Int.eq_ofNat_of_zero_le h0
+      split
+      · rw [wp_bind, wp_fail]; exact std_fail h3
+      rename_i hguard
+      have hn : n ≤ 1000000020 := by omega
       have hneg : ¬ Origin.toOriginLength (n : Int) < 0 := by
         rw [Origin.toOriginLength_nat]; omega
       rw [if_neg hneg, wp_bind]; apply wp_getS
@@ -197,15 +213,13 @@ theorem originField_safeS (length : Int) (d : Nat) (h0 : 0 ≤ length) (hL : L <
       split
       · rw [wp_bind, wp_fail]; exact std_fail h3
       · rename_i hlen
-        have hle := h3.le
-        have hn : n < 10 ^ 9 := by have := Origin.le_tl n; omega
-        have hv := Origin.validateOrigin_ne_panic (s3.rest.take (Origin.tl n)) n hn
+        have hv := Origin.validateOrigin_ne_panic_le (s3.rest.take (Origin.tl n)) n hn
           (by simp only [List.length_take]; omega)
         split
         · repeat wps_step
         · rename_i hp; exact absurd hp hv
         · simp only [Int.toNat_natCast, slowLines_eq]
-          have hsl := Origin.slowLines_ne_panic n (Origin.tl n) n 0 s3.rest [] hn (by simp)
+          have hsl := Origin.slowLines_ne_panic_le n (Origin.tl n) n 0 s3.rest [] (Or.inr ⟨hn, rfl⟩) (by simp)
           split
           · rename_i hp; exact absurd hp hsl
           · rw [wp_bind, wp_fail]; exact std_fail h3
